@@ -316,6 +316,11 @@ fn gen_stage(rng: &mut Rng, corpus: &Corpus, second: bool) -> Stage {
                 flips.push((rng.below(data_text.len()), *rng.pick(&[0x01u8, 0x20, 0x80, 0xff, 0x04])));
             }
         }
+        if rng.chance(1, 120) && !read.iter().any(|a| a.kind == 'e' || a.kind == 'x') {
+            // a slow producer: one delivery arrives a quarter of a second late (real time)
+            let at = rng.below(read.len() + 1);
+            read.insert(at, Act { kind: 'd', arg: 250 });
+        }
     }
     let mut w1 = if rng.chance(1, 3) { transparent_script(rng, 8) } else { Vec::new() };
     if rng.chance(1, 25) {
@@ -870,7 +875,11 @@ fn tally(stage: &Stage, res: &StageResult, expect: &Expect, st: &mut CaseStats) 
                     bump(&mut st.fired, &format!("write{}-error(unjudged)", fd), 1);
                 }
             }
-            Ev::Other(_) => {}
+            Ev::Other(l) => {
+                if l.starts_with("d ") {
+                    bump(&mut st.fired, "stdin-delivery-stalls-250ms", 1);
+                }
+            }
         }
     }
     if !stage.flips.is_empty() && stage.form != Form::Arg {
